@@ -303,6 +303,12 @@ func (g *Gen) quant(op string, x d128.Decimal, dp int, m int) {
 
 func genC08(g *Gen) {
 	g.setMode(0)
+	g.encodingGrid(0.1, func(x d128.Decimal) {
+		_, _, _, xe := unmk(x)
+		dp := -xe - 1 + g.r.Intn(3)
+		g.quant("Round", x, dp, g.r.Intn(6))
+		g.quant([]string{"Ceil", "Floor"}[g.r.Intn(2)], x, dp-g.r.Intn(36), 0)
+	})
 	dpEdges := []int{-7000, -6212, -6211, -6177, -6176, -6175, -6147, -6146, -6145, -6112, -6111, -6110, -6077, -6076, -40, -35, -34, -1, 0, 1, 34, 35, 36,
 		6110, 6111, 6112, 6140, 6141, 6142, 6175, 6176, 6177, 6210, 6211, 6212, 7000, 32767, 32768, -32768, -32769, 65536, -65536,
 		math.MaxInt32, math.MinInt32, math.MaxInt64, math.MinInt64, math.MinInt64 + 1, math.MaxInt64 - 1}
@@ -569,6 +575,19 @@ func (g *Gen) cohortRich() d128.Decimal {
 func genC19(g *Gen) {
 	g.setMode(0)
 	g.onesGrid(0.12)
+	g.cmpTailGrid(0.12, func(x, y d128.Decimal) {
+		for _, xv := range []d128.Decimal{x, g.variant(x)} {
+			g.bin2("Cmp", xv, y)
+			g.bin2("Cmp", y, xv)
+			g.bin2("Compare", xv, y)
+			g.bin2("Max", y, xv)
+		}
+	})
+	g.encodingGrid(0.08, func(x d128.Decimal) {
+		g.un("Canonical", x)
+		g.un([]string{"Sqrt", "Cbrt", "String", "Frexp", "MarshalJSON", "IsZero", "Sign", "Float64", "Int"}[g.r.Intn(9)], x)
+		g.bin([]string{"Add", "Mul", "Quo", "QuoRem"}[g.r.Intn(4)], x, g.variant(x), g.r.Intn(6))
+	})
 	// the same sum with the vanishing operand in three encodings, both operand orders
 	g.vanishGrid(0.25, func(x, y d128.Decimal) {
 		m := g.r.Intn(6)
